@@ -1,6 +1,7 @@
 import OhkamiModel.P.TopLevel
 import OhkamiModel.P.FangsBuild
 import OhkamiModel.P.FangsNodup
+import OhkamiModel.P.FangsBuildND
 /-! # C01 — property theorems.
 Spec level: `greedyChain` on the flat route table (statics first, look-ahead over forced static chains).
 Refinement: trie look-up = spec (segment level), byte-level search of the finalized router = trie look-up,
@@ -45,5 +46,12 @@ exactly the routes of the flattened configuration (mount prefix prepended to eac
 theorem mounts_flatten (cfg : App) (t : BN) (h : build cfg = some t) :
     (routesOfBN t).Perm (flatRoutes cfg) ∧ TreeOK t :=
   routes_build cfg t h
+
+/-- **No twin siblings**: in the trie of every application tree that builds (any nesting of mounts, routes of the parent under a
+mount prefix included, any registration order) the children of a node have pairwise distinct patterns — at most one param child,
+no two static children with the same bytes — so no registered route sits behind a sibling that the search never enters.
+(This failed before fix 8878fb7: `merge_here` pushed the mounted application's children beside the parent's.) -/
+theorem siblings_distinct (cfg : App) (t : BN) (h : build cfg = some t) : ND t :=
+  nd_build cfg t h
 
 end C01
